@@ -64,6 +64,16 @@ func GenCoeff(r *plan.Rng) string {
 	case 8:
 		return randDigits(r, 30+r.Intn(40))
 	default:
+		if r.Chance(1, 3) {
+			// perfect squares and cubes of long numbers (exact roots, also with
+			// heap-backed coefficients)
+			n := bigFromText(randDigits(r, 3+r.Intn(24)))
+			p := new(big.Int).Mul(n, n)
+			if r.Bool() {
+				p.Mul(p, n)
+			}
+			return p.String()
+		}
 		// ties and all-nines shapes
 		switch r.Intn(4) {
 		case 0:
@@ -148,6 +158,21 @@ func GenDec(r *plan.Rng, wide bool) plan.Dec {
 		d.Coeff = randDigits(r, 1+r.Intn(4))
 		d.Exp = int32(-(len(d.Coeff) + 1 + r.Intn(6)))
 		d.Neg = r.Bool()
+		return d
+	case 8:
+		// exact squares / cubes / sixth powers (exact roots), often beyond 128 bits
+		n := bigFromText(randDigits(r, 2+r.Intn(22)))
+		p := new(big.Int).Mul(n, n)
+		switch r.Intn(3) {
+		case 0:
+			p.Mul(p, n)
+		case 1:
+			p.Mul(p, n)
+			p.Mul(p, p)
+		}
+		d.Coeff = p.String()
+		d.Exp = []int32{0, 0, 6, -6, 12, -12, 3, -2}[r.Intn(8)]
+		d.Neg = r.Chance(1, 6)
 		return d
 	case 7:
 		// small integers
@@ -244,4 +269,21 @@ func Sibling(r *plan.Rng, d plan.Dec) plan.Dec {
 	}
 	s.Heap = d.Heap || r.Chance(1, 6)
 	return s
+}
+
+// ExactPowerText returns the decimal text of n^k (k = 2 or 3) scaled by a power
+// of ten that keeps it an exact k-th power, with n long enough, often, for the
+// power to exceed 128 bits.
+func ExactPowerText(r *plan.Rng, k int) string {
+	n := bigFromText(randDigits(r, 1+r.Intn(24)))
+	p := new(big.Int).Set(n)
+	for i := 1; i < k; i++ {
+		p.Mul(p, n)
+	}
+	e := k * r.Range(-3, 3)
+	s := p.String()
+	if r.Chance(1, 5) {
+		s = "-" + s
+	}
+	return fmt.Sprintf("%sE%d", s, e)
 }
